@@ -170,18 +170,47 @@ fn fn_terms() -> Vec<(Unifiable, Unifiable)> {
         (f("multiply", vec![SInteger(2), SFloat(1.5)]), SFloat(3.0)),
         (f("divide", vec![SInteger(7), SInteger(2)]), SInteger(3)),
         (f("join", vec![atom("a"), atom("b")]), atom("a b")),
+        // arguments that are variables: bound directly ($P = 1), through one more variable ($Q -> $P), through two ($R -> $Q -> $P)
+        // - under the bindings of chain_ss() only (seed C13-5: a guard looked one binding step deep, the evaluators follow the chain)
+        (f("add", vec![var(5, "$P"), SInteger(2)]), SInteger(3)),
+        (f("add", vec![var(6, "$Q"), SInteger(2)]), SInteger(3)),
+        (f("subtract", vec![SInteger(4), var(7, "$R")]), SInteger(3)),
+        (f("multiply", vec![var(6, "$Q"), SFloat(3.0)]), SFloat(3.0)),
+        (f("divide", vec![SInteger(3), var(7, "$R")]), SInteger(3)),
     ]
+}
+const FIRST_CHAIN_FN: usize = 5;
+fn chain_ss() -> SS {
+    let mut ss: SS = vec![None; 8];
+    ss[5] = Some(Rc::new(SInteger(1)));
+    ss[6] = Some(Rc::new(var(5, "$P")));
+    ss[7] = Some(Rc::new(var(6, "$Q")));
+    ss
 }
 pub fn enum_function(_seed: u64) -> Vec<String> {
     let mut out = vec![];
     let others = vec![SInteger(3), SInteger(4), SFloat(3.0), atom("a b"), atom("c"), var(1, "$X"), var(2, "$Y")];
     for ss in prior_sets() {
         for (k, _) in fn_terms().iter().enumerate() {
+            if k >= FIRST_CHAIN_FN { continue; }
             for o in &others {
                 out.push(format!("ss={};f={};o={};side=l", ser_ss(&ss), k, ser(o)));
                 out.push(format!("ss={};f={};o={};side=r", ser_ss(&ss), k, ser(o)));
             }
-            for (k2, _) in fn_terms().iter().enumerate() { out.push(format!("ss={};f={};o=fn{};side=l", ser_ss(&ss), k, k2)); }
+            for (k2, _) in fn_terms().iter().enumerate() { if k2 < FIRST_CHAIN_FN { out.push(format!("ss={};f={};o=fn{};side=l", ser_ss(&ss), k, k2)); } }
+        }
+    }
+    // function terms whose arguments are bound variables, directly and through chains
+    let mut css = vec![chain_ss()];
+    { let mut c2 = chain_ss(); c2[1] = Some(Rc::new(SInteger(3))); css.push(c2); }           // $X already 3
+    { let mut c3 = chain_ss(); c3[2] = Some(Rc::new(var(1, "$X"))); css.push(c3); }          // $Y -> $X, unbound
+    for ss in css {
+        for k in FIRST_CHAIN_FN..fn_terms().len() {
+            for o in &others {
+                out.push(format!("ss={};f={};o={};side=l", ser_ss(&ss), k, ser(o)));
+                out.push(format!("ss={};f={};o={};side=r", ser_ss(&ss), k, ser(o)));
+            }
+            for k2 in 0..fn_terms().len() { out.push(format!("ss={};f={};o=fn{};side=l", ser_ss(&ss), k, k2)); }
         }
     }
     out
